@@ -42,6 +42,8 @@ enum Dev {
     OuterTagDirty,
     InnerTagDirty,
     OriginNeverTrusted,
+    /// the origin chain named in the message is the hub's own chain, which is not a trusted origin here
+    OriginHubChain,
     OriginY,
     UnknownToken,
     /// 0 = not XDR at all, 1 = XDR of a string, 2 = XDR of an address followed by a junk byte
@@ -147,7 +149,7 @@ impl C04 {
             Dev::SourceChainNotHub | Dev::SourceAddressNotHub => 2,
             Dev::OuterSendToHub | Dev::OuterType(_) | Dev::OuterTagDirty => 3,
             Dev::InnerType(_) | Dev::InnerTagDirty => 4,
-            Dev::OriginNeverTrusted | Dev::OriginY => 5,
+            Dev::OriginNeverTrusted | Dev::OriginHubChain | Dev::OriginY => 5,
             Dev::UnknownToken | Dev::TakenId | Dev::TakenCanonicalId => 6,
             Dev::GarbageAddress(_) => 7,
             Dev::Amount(_) | Dev::OverCustody => 8,
@@ -169,6 +171,7 @@ impl C04 {
         for d in devs.iter().cloned() {
         match d {
             Dev::OriginNeverTrusted => origin = "polygon".into(),
+            Dev::OriginHubChain => origin = HUB_CHAIN.into(),
             Dev::OriginY => origin = Y.into(),
             Dev::UnknownToken => {
                 if !is_transfer { return None; }
@@ -278,6 +281,7 @@ impl C04 {
             Dev::SourceAddressNotHub,
             Dev::OuterSendToHub,
             Dev::OriginNeverTrusted,
+            Dev::OriginHubChain,
             Dev::OriginY,
             Dev::UnknownToken,
             Dev::OverCustody,
@@ -639,7 +643,7 @@ fn main() {
         let thorough = tier == "thorough";
         let mut o = Opts::new(tier, if thorough { 5 } else { 3 });
         o.min_depth = 2;
-        o.rule = "histories over {set/remove trusted chain X, Y} and deliveries; a delivery = one of 5 conforming messages (transfer to service-deployed token, to canonical token, with data to an app, remote deploy without/with minter) with ONE deviation from {none, never approved, approved with other payload / id / source address / destination contract, source chain not the hub, source address not the hub address, SendToHub wrapper, outer type 0/1/2/5/255, inner type 2/3/4/5/255, a dirty high byte in the outer / inner type word, origin never trusted, origin Y (trusted only after set), unknown token, 3 kinds of undecodable recipient/minter bytes, a zero-amount transfer without data that names an unknown token / an undecodable recipient / a never-trusted origin, amount words 2^127, 2^128, 2^128+1000, 2^184+7, 2^192+5, 2^255, ff..ff, truncation at every 32-byte word, 3 kinds of trailing bytes on the payload and on the inner message, over-custody amount, taken token id, empty name, empty symbol}; delivering the same message twice arises as a path; thorough: every PAIR of deviations of different classes from the states reached by trust changes; payloads come from the independent ABI encoder".into();
+        o.rule = "histories over {set/remove trusted chain X, Y} and deliveries; a delivery = one of 5 conforming messages (transfer to service-deployed token, to canonical token, with data to an app, remote deploy without/with minter) with ONE deviation from {none, never approved, approved with other payload / id / source address / destination contract, source chain not the hub, source address not the hub address, SendToHub wrapper, outer type 0/1/2/5/255, inner type 2/3/4/5/255, a dirty high byte in the outer / inner type word, origin never trusted, origin = the hub's own chain name (never trusted), origin Y (trusted only after set), unknown token, 3 kinds of undecodable recipient/minter bytes, a zero-amount transfer without data that names an unknown token / an undecodable recipient / a never-trusted origin, amount words 2^127, 2^128, 2^128+1000, 2^184+7, 2^192+5, 2^255, ff..ff, truncation at every 32-byte word, 3 kinds of trailing bytes on the payload and on the inner message, over-custody amount, taken token id, empty name, empty symbol}; delivering the same message twice arises as a path; thorough: every PAIR of deviations of different classes from the states reached by trust changes; payloads come from the independent ABI encoder".into();
         (C04 { thorough }, o)
     });
 }
